@@ -25,7 +25,8 @@ EXTENDS Integers, Sequences, FiniteSets, TLC, Json
 
 CONSTANTS G,        \* goroutines per workload (2 or 3)
           Kinds,    \* subset of DOMAIN OpsOf to enumerate
-          Lazy      \* implementation layer: set of "kind/op" that normalise the shared object in place
+          Lazy,     \* implementation layer: set of "kind/op" that normalise the shared object in place
+          Cached    \* implementation layer: set of "kind/op" that memoise in PACKAGE-LEVEL state keyed by the operand
 
 OpsOf ==       \* per object kind the read-only method set, in a fixed order
   [point    |-> <<"MarshalBinary", "String", "Equal", "EqualArg", "Clone", "Data", "MarshalTo", "SetArg",
@@ -56,58 +57,88 @@ RepsOf(k) == CASE k \in {"point", "scalar"} -> {"decoded", "arith"}
                [] k = "suite"   -> {"fresh", "warm"}
                [] OTHER         -> {"fresh"}
 
-VARIABLES wl,      \* the workload: [kind, rep, ops (one per goroutine)]
-          pc,      \* goroutine -> number of accesses done
-          sh,      \* representation of the shared object: "raw" | "half" | "norm"
-          seen,    \* goroutine -> what its reads saw so far
-          wr, rd   \* goroutines that have written / read the shared object so far
-vars == <<wl, pc, sh, seen, wr, rd>>
-Gs == 1..G
+(* which shared object a goroutine works on:                                 *)
+(*  "same"      all goroutines use ONE shared object A                        *)
+(*  "distinct"  op on shared object A || same code path on shared object B    *)
+(*              (two points / scalars as operands of operations that write    *)
+(*              elsewhere, two point pairs through one pairing suite, two     *)
+(*              keys + messages + signatures through one scheme object).      *)
+(*              Per-object state cannot conflict here; state OUTSIDE the      *)
+(*              objects (package-level caches keyed by the operand, shared    *)
+(*              scratch digests) can, and it can make results wrong.          *)
+ObjsOf(k, r) == IF k \in {"point", "scalar", "pairing", "verifier"} /\ r \in {"arith", "fresh"}
+                THEN {"same", "distinct"} ELSE {"same"}
+Objs == {"A", "B", "pkg"}
 
-(* access program of an operation: read-only operations read the shared      *)
-(* representation twice (e.g. X then Z) and write their private result;      *)
-(* a lazily normalising one first rewrites the shared object in two steps    *)
-Prog(k, op) == IF (k \o "/" \o op) \in Lazy
-               THEN << <<"w", "shared">>, <<"w", "shared">>, <<"r", "shared">>, <<"r", "shared">>, <<"w", "priv">> >>
-               ELSE << <<"r", "shared">>, <<"r", "shared">>, <<"w", "priv">> >>
+VARIABLES wl,      \* the workload: [kind, rep, objs, ops (one per goroutine)]
+          pc,      \* goroutine -> number of accesses done
+          sh,      \* shared object -> its representation: "raw" | "half" | "norm"
+          cache,   \* key held by the package-level cache: "A" | "B"
+          seen,    \* goroutine -> what its reads saw so far
+          wr, rd   \* object (A, B, pkg) -> goroutines that have written / read it so far
+vars == <<wl, pc, sh, cache, seen, wr, rd>>
+Gs == 1..G
+ObjOf(g) == IF wl.objs = "same" \/ g % 2 = 1 THEN "A" ELSE "B"
+
+(* access program of an operation: read-only operations read their shared    *)
+(* object twice (e.g. X then Z) and write their private result; a lazily     *)
+(* normalising one first rewrites the shared object in two steps; a          *)
+(* memoising one first looks its operand up in the package-level cache       *)
+(* ("c": hit = read, miss = rebuild = write) and then uses the table ("u")   *)
+Prog(k, op) ==
+  (IF (k \o "/" \o op) \in Cached THEN << <<"c", "pkg">>, <<"u", "pkg">> >> ELSE <<>>) \o
+  (IF (k \o "/" \o op) \in Lazy
+   THEN << <<"w", "shared">>, <<"w", "shared">>, <<"r", "shared">>, <<"r", "shared">>, <<"w", "priv">> >>
+   ELSE << <<"r", "shared">>, <<"r", "shared">>, <<"w", "priv">> >>)
 
 (* unordered workloads: non-decreasing op indices, so op1 || op2 is listed once *)
-Init == \E k \in Kinds : \E r \in RepsOf(k) : \E idx \in [Gs -> 1..Len(OpsOf[k])] :
+Init == \E k \in Kinds : \E r \in RepsOf(k) : \E ob \in ObjsOf(k, r) : \E idx \in [Gs -> 1..Len(OpsOf[k])] :
           /\ \A g \in 1..(G - 1) : idx[g] <= idx[g + 1]
-          /\ wl = [kind |-> k, rep |-> r, ops |-> [g \in Gs |-> OpsOf[k][idx[g]]]]
+          /\ wl = [kind |-> k, rep |-> r, objs |-> ob, ops |-> [g \in Gs |-> OpsOf[k][idx[g]]]]
           /\ pc = [g \in Gs |-> 0]
-          /\ sh = IF r \in {"arith", "fresh"} THEN "raw" ELSE "norm"   \* nothing normalised / created yet
+          /\ sh = [o \in {"A", "B"} |-> IF r \in {"arith", "fresh"} THEN "raw" ELSE "norm"]  \* nothing normalised / created yet
+          /\ cache = "A"        \* an earlier (sequential) use may have left an EQUAL key: with one object every lookup hits
           /\ seen = [g \in Gs |-> <<>>]
-          /\ wr = {} /\ rd = {}
+          /\ wr = [o \in Objs |-> {}] /\ rd = [o \in Objs |-> {}]
 
 Access(g) ==
-  LET prog == Prog(wl.kind, wl.ops[g]) IN
+  LET prog == Prog(wl.kind, wl.ops[g])  o == ObjOf(g) IN
   /\ pc[g] < Len(prog)
   /\ LET a == prog[pc[g] + 1] IN
      /\ pc' = [pc EXCEPT ![g] = @ + 1]
-     /\ wr' = IF a = <<"w", "shared">> THEN wr \cup {g} ELSE wr
-     /\ rd' = IF a = <<"r", "shared">> THEN rd \cup {g} ELSE rd
-     /\ IF a = <<"w", "shared">>
-        THEN /\ sh' = IF sh = "raw" THEN "half" ELSE "norm"      \* X := X/Z ... Z := 1
-             /\ seen' = seen
-        ELSE IF a = <<"r", "shared">>
-        THEN sh' = sh /\ seen' = [seen EXCEPT ![g] = Append(@, sh)]
-        ELSE sh' = sh /\ seen' = seen
+     /\ CASE a = <<"w", "shared">> ->
+               /\ sh' = [sh EXCEPT ![o] = IF @ = "raw" THEN "half" ELSE "norm"]      \* X := X/Z ... Z := 1
+               /\ wr' = [wr EXCEPT ![o] = @ \cup {g}]
+               /\ UNCHANGED <<seen, rd, cache>>
+          [] a = <<"r", "shared">> ->
+               /\ seen' = [seen EXCEPT ![g] = Append(@, sh[o])]
+               /\ rd' = [rd EXCEPT ![o] = @ \cup {g}]
+               /\ UNCHANGED <<sh, wr, cache>>
+          [] a = <<"c", "pkg">> ->            \* lookup: hit reads the key, miss rebuilds the table for its own operand
+               /\ IF cache = o THEN rd' = [rd EXCEPT !["pkg"] = @ \cup {g}] /\ UNCHANGED <<wr, cache>>
+                  ELSE wr' = [wr EXCEPT !["pkg"] = @ \cup {g}] /\ cache' = o /\ UNCHANGED rd
+               /\ UNCHANGED <<sh, seen>>
+          [] a = <<"u", "pkg">> ->            \* use the table: correct only if it still belongs to the own operand
+               /\ seen' = [seen EXCEPT ![g] = Append(@, IF cache = o THEN sh[o] ELSE "half")]
+               /\ rd' = [rd EXCEPT !["pkg"] = @ \cup {g}]
+               /\ UNCHANGED <<sh, wr, cache>>
+          [] OTHER -> UNCHANGED <<sh, cache, seen, wr, rd>>
      /\ UNCHANGED wl
 Next == \E g \in Gs : Access(g)
 Spec == Init /\ [][Next]_vars
 
 -----------------------------------------------------------------------------
-(* no synchronisation exists inside the operations, so a write of the shared *)
-(* object by one goroutine and any access of it by another are a data race   *)
-NoConflict == \A g \in wr : (wr \cup rd) \ {g} = {}
+(* no synchronisation exists inside the operations, so a write of a shared   *)
+(* object (or of package-level state) by one goroutine and any access of it  *)
+(* by another are a data race                                                *)
+NoConflict == \A o \in Objs : \A g \in wr[o] : (wr[o] \cup rd[o]) \ {g} = {}
 
 Finished(g) == pc[g] = Len(Prog(wl.kind, wl.ops[g]))
 (* run alone an operation sees one consistent representation                 *)
 ResultsSequential == \A g \in Gs : Finished(g) =>
                         (\A i, j \in 1..Len(seen[g]) : seen[g][i] = seen[g][j]) /\ (\A i \in 1..Len(seen[g]) : seen[g][i] # "half")
-TypeOK == sh \in {"raw", "half", "norm"} /\ \A g \in Gs : pc[g] \in 0..5
+TypeOK == (\A o \in {"A", "B"} : sh[o] \in {"raw", "half", "norm"}) /\ cache \in {"A", "B"} /\ \A g \in Gs : pc[g] \in 0..7
 
 Emit == (\A g \in Gs : pc[g] = 0) =>
-          PrintT(<<"TRACE", ToJson([kind |-> wl.kind, rep |-> wl.rep, ops |-> wl.ops])>>)
+          PrintT(<<"TRACE", ToJson([kind |-> wl.kind, rep |-> wl.rep, objs |-> wl.objs, ops |-> wl.ops])>>)
 =============================================================================
